@@ -112,6 +112,24 @@ def score_cases(draw, max_n=20):
     return case
 
 
+def check_loo_predictions(gp, ref, kappa, y, spec, tag, ctx, when=""):
+    n = y.size
+    f = 1e-9 + 100 * kappa * EPS
+    with np.errstate(all="ignore"):
+        mu, sig = gp.loo_predictions()
+    mu, sig = np.asarray(mu, dtype=float), np.asarray(sig, dtype=float)
+    if mu.shape != (n,) or sig.shape != (n,):
+        raise Violation(f"loo-shape:{tag}", f"loo_predictions shapes {mu.shape}, {sig.shape}")
+    prior_sd = np.sqrt(np.maximum(np.diag(ref["K"]), 1e-300))
+    sc_mu = np.abs(ref["loo_mu"]) + np.abs(y) + prior_sd * np.sqrt(kappa)
+    e1 = np.max(np.abs(mu - ref["loo_mu"]) / (f * sc_mu))
+    e2 = np.max(np.abs(sig**2 - ref["loo_var"]) / (f * np.diag(ref["K"])))
+    ctx.ratio("loo-predictions", max(e1, e2), 1.0)
+    if not max(e1, e2) <= 1 or not np.all(np.isfinite(mu)):
+        i = int(np.argmax(np.abs(mu - ref["loo_mu"]) / (f * sc_mu)))
+        raise Violation(f"loo-predictions:{tag}", f"{rk.describe(spec)} n={n}{when}: LOO mean[{i}] {mu[i]!r} vs refit {ref['loo_mu'][i]!r}; var {sig[i]**2!r} vs {ref['loo_var'][i]!r} (ratios {e1:.3g}, {e2:.3g})")
+
+
 def body_scores(case, ctx):
     X, y, xs, ys, spec, noise_kw, S, th_cov, th_mean = setup(case)
     n = case["n"]
@@ -145,19 +163,7 @@ def body_scores(case, ctx):
     except (np.linalg.LinAlgError, ValueError):
         pass
     # leave-one-out predictions (for the hyper-parameters the regressor holds)
-    with np.errstate(all="ignore"):
-        mu, sig = gp.loo_predictions()
-    mu, sig = np.asarray(mu, dtype=float), np.asarray(sig, dtype=float)
-    if mu.shape != (n,) or sig.shape != (n,):
-        raise Violation(f"loo-shape:{tag}", f"loo_predictions shapes {mu.shape}, {sig.shape}")
-    prior_sd = np.sqrt(np.maximum(np.diag(ref["K"]), 1e-300))
-    sc_mu = np.abs(ref["loo_mu"]) + np.abs(y) + prior_sd * np.sqrt(kappa)
-    e1 = np.max(np.abs(mu - ref["loo_mu"]) / (f * sc_mu))
-    e2 = np.max(np.abs(sig**2 - ref["loo_var"]) / (f * np.diag(ref["K"])))
-    ctx.ratio("loo-predictions", max(e1, e2), 1.0)
-    if max(e1, e2) > 1 or not np.all(np.isfinite(mu)):
-        i = int(np.argmax(np.abs(mu - ref["loo_mu"]) / (f * sc_mu)))
-        raise Violation(f"loo-predictions:{tag}", f"{rk.describe(spec)} n={n}: LOO mean[{i}] {mu[i]!r} vs refit {ref['loo_mu'][i]!r}; var {sig[i]**2!r} vs {ref['loo_var'][i]!r} (ratios {e1:.3g}, {e2:.3g})")
+    check_loo_predictions(gp, ref, kappa, y, spec, tag, ctx)
     # leave-one-out score difference between two hyper-parameter vectors
     th_cov2, th_mean2 = second_theta(case, X, y, ys, spec)
     ref2, kappa2 = ref_scores(case, X, y, S, spec, th_cov2, th_mean2)
@@ -181,6 +187,18 @@ def body_scores(case, ctx):
         if abs(float(l1g) - l1) > tol:
             raise Violation(f"loo-gradient-value:{tag}", f"value from loo_likelihood_gradient {float(l1g)!r} vs {l1!r}")
         ctx.event("loo-score-compared")
+    # the regressor is long-lived: after its hyper-parameters are replaced (set_hyperparameters is what both optimisers and users
+    # call), its leave-one-out predictions are those of the hyper-parameters it holds now - and again after switching back
+    if ref2 is not None:
+        with np.errstate(all="ignore"), warnings.catch_warnings():
+            warnings.simplefilter("ignore")
+            gp.set_hyperparameters(np.concatenate([th_mean2, th_cov2]))
+        check_loo_predictions(gp, ref2, kappa2, y, spec, tag, ctx, when=" after set_hyperparameters(second vector)")
+        with np.errstate(all="ignore"), warnings.catch_warnings():
+            warnings.simplefilter("ignore")
+            gp.set_hyperparameters(theta.copy())
+        check_loo_predictions(gp, ref, kappa, y, spec, tag, ctx, when=" after switching back to the first vector")
+        ctx.event("loo-predictions-after-hyperparameter-switch")
     ctx.nontrivial(nontrivial(case, kappa, theta.size))
     ctx.event("kernel=" + tag)
     ctx.event(f"noise={case['noise']}")
